@@ -4,6 +4,7 @@ import (
 	"errors"
 	"fmt"
 	"io"
+	"strings"
 
 	"github.com/foxglove/mcap/go/mcap"
 	"verif/sim/internal/model"
@@ -274,6 +275,19 @@ func LexAll(src io.Reader, spec LexSpec) *LexResult {
 					return
 				}
 				r = MetadataRec(m)
+			case mcap.TokenMessageIndex:
+				mi, e := mcap.ParseMessageIndex(rec)
+				if e != nil {
+					res.Err = fmt.Errorf("parse message index: %w", e)
+					return
+				}
+				// entries rendered as (log_time, offset) pairs; Name carries them so that a
+				// padded and an unpadded record compare equal iff their entries do
+				var sb strings.Builder
+				for _, en := range mi.Entries() {
+					fmt.Fprintf(&sb, "%d@%d,", en.Timestamp, en.Offset)
+				}
+				r = &model.Rec{Kind: kind, ChannelID: mi.ChannelID, Name: sb.String(), Data: clone(rec)}
 			default:
 				r = &model.Rec{Kind: kind, Data: clone(rec)}
 			}
